@@ -63,7 +63,8 @@ def main():
     for a in sys.argv[1:]:
         if a.startswith("--jobs="):
             jobs = int(a.split("=")[1])
-    names = args or sorted(os.listdir(os.path.join(HERE, "seeded")))
+    names = args or sorted(n for n in os.listdir(os.path.join(HERE, "seeded"))
+                           if os.path.isdir(os.path.join(HERE, "seeded", n)))
     bad = 0
     with cf.ThreadPoolExecutor(jobs) as ex:
         for name, res in ex.map(lambda n: evaluate(n, "--no-tests" not in sys.argv), names):
